@@ -30,4 +30,7 @@ def jobs(tier, ws, prop='C06'):
                           canaries=['moved', 'failure_reported'] + (['idle_rank'] if rk == np_ - 1 and np_ > 1 else []), unwind=40, kind='bounded', timeout=300,
                           unwindset=['ncmpio_enddef.c:move_file_block.0:2'],
                           bound='%d processes, rank %d; block of at most 4096 bytes (one round); offsets symbolic' % (np_, rk)))
+    if prop == 'C06':
+        import C03
+        js += [j for j in C03.jobs(tier, ws, prop='C06') if 'ncmpio__enddef' in j.name]   # which data movement enddef decides on (records re-strided whenever the record size grew)
     return js
